@@ -114,6 +114,40 @@ example : lower countTo =
      .pick 2, .num2 "i32.ge_u", .brIf 15 11 none, .label ⟨.header, 4⟩, .br 2, .label ⟨.cont, 3⟩, .br 15,
      .label ⟨.cont, 2⟩, .pick 0, .drop ⟨1, 2⟩, .br retAddr] := by rfl
 
+
+/-! the two runs on the argument 2, evaluated by `simp` (the numeric table dispatches on `name.splitOn "."`,
+which the kernel cannot evaluate by `decide`; the two splits are evaluated explicitly) -/
+
+theorem split_add : "i32.add".splitOn "." = ["i32", "add"] := by
+  simp +decide [String.splitOn, String.splitOnAux.eq_1]
+theorem split_geu : "i32.ge_u".splitOn "." = ["i32", "ge_u"] := by
+  simp +decide [String.splitOn, String.splitOnAux.eq_1]
+
+theorem scalar_add (a b : Nat) :
+    Wz.Spec.Num.scalar "i32.add" [a, b] =
+      some (.val (Wz.Spec.Int.iadd (Wz.Spec.Num.bv 32 a) (Wz.Spec.Num.bv 32 b)).toNat) := by
+  rw [scalar2_eq split_add]; simp [sc2, Wz.Spec.Num.ibin]
+theorem scalar_geu (a b : Nat) :
+    Wz.Spec.Num.scalar "i32.ge_u" [a, b] =
+      some (.val (Wz.Spec.Int.igeU (Wz.Spec.Num.bv 32 a) (Wz.Spec.Num.bv 32 b)).toNat) := by
+  rw [scalar2_eq split_geu]; simp [sc2, Wz.Spec.Num.ibin]
+
+/-- the flat run counts to 2 … -/
+example : runFlat countTo [2] 40 = .values [2] := by
+  have hl : lower countTo =
+    [.const .i32 0, .br 2, .label ⟨.header, 3⟩, .pick 0, .const .i32 1, .num2 "i32.add", .pick 0, .set 2,
+     .pick 2, .num2 "i32.ge_u", .brIf 15 11 none, .label ⟨.header, 4⟩, .br 2, .label ⟨.cont, 3⟩, .br 15,
+     .label ⟨.cont, 2⟩, .pick 0, .drop ⟨1, 2⟩, .br retAddr] := by rfl
+  simp only [runFlat, runCode, hl]
+  simp +decide [runFrom, step, numStep, scalar_add, scalar_geu, numResult, applyDrop, Wz.Spec.Int.iadd,
+    Wz.Spec.Int.igeU, Wz.Spec.Int.b2i, Wz.Spec.Num.bv, retAddr, countTo]
+
+/-- … and so does the structured reference semantics -/
+example : runStruct countTo [2] 40 = .values [2] := by
+  simp +decide [runStruct, invoke, callFunc, funcType, Fn.toModule, countTo, toInstrs, FI.toInstr, execSeq,
+    execInstr, scalar_add, scalar_geu, numResult, Wz.Spec.Int.iadd, Wz.Spec.Int.igeU, Wz.Spec.Int.b2i,
+    Wz.Spec.Num.bv, splitTop, arity]
+
 /-- the theorems apply to it, for every argument -/
 example (a : Nat) (ha : a < 2 ^ 32) (m : Nat) (w : String) : runFlat countTo [a] m ≠ .panic w :=
   C01_lower_no_panic countTo (by decide) (by decide) [a] ⟨ha, trivial⟩ m w
